@@ -6,7 +6,7 @@ WRAP = ['pthread_cond_wait', 'pthread_cond_signal']
 
 RULE = ('histories over one file-backed store in a private directory: set / set-multiple / remove / clear / get / '
         'save+synchronise / save interrupted after k system calls (every k from 0 to all) followed by a process '
-        'restart / bursts of 2-4 saves (one or two files) with the saver thread held inside the k-th system call of the first / save+synchronise with n spurious wake-ups of pthread_cond_wait and a slow disk / save whose writes fail with ENOSPC from the k-th on / load / restart / repeated Load() and LoadFromFile() on one long-lived object between unsaved edits and same-length saves / hand-written settings files / a settings file that is a symbolic link / universes with ids of 1-10 digits torn down and restored in both orders / saves whose close() or rename() fails / typed setters (unsigned, int, bool) and GetValueAsBool / several devices released and re-registered in turn / universe appear-rename-teardown / device '
+        'restart / bursts of 2-4 saves (one or two files) with the saver thread held inside the k-th system call of the first / 40-1100 consecutive saves under a lowered RLIMIT_NOFILE (descriptor count at quiescence compared in every case) / save+synchronise with n spurious wake-ups of pthread_cond_wait and a slow disk / save whose writes fail with ENOSPC from the k-th on / load / restart / repeated Load() and LoadFromFile() on one long-lived object between unsaved edits and same-length saves / hand-written settings files / a settings file that is a symbolic link / universes with ids of 1-10 digits torn down and restored in both orders / saves whose close() or rename() fails / typed setters (unsigned, int, bool) and GetValueAsBool / several devices released and re-registered in turn / universe appear-rename-teardown / device '
         'register-patch-priority-unregister-shutdown; keys and values aimed at the separators (=, #, blanks, empty, '
         'prefixes of each other, bytes above 127), universe ids at 0, 2^31-1, 2^31, 2^32-1, priorities at 0, 200, '
         '201, 255; a minority of inputs outside the side conditions (untrimmed, key with =, embedded newline). '
@@ -109,7 +109,9 @@ def gen_consts(v):
             f.write(txt)
     return None
 
-_KEYS = ['s', 'f', 'a', 'u', 'p', 'y', 'z']
+# q: rounds of a repetition after which the file was not the store; d (descriptors open at quiescence minus
+# baseline) is compared too but is not property-determined by itself (a leak only matters once it bites: q)
+_KEYS = ['s', 'f', 'a', 'u', 'p', 'y', 'z', 'q']
 SPEC_KEYS = set('%s%d' % (k, i) for k in _KEYS for i in range(0, 300))
 # xc / xi: system calls and images of a save with failing writes (how often libstdc++ retries is its business)
 INTERNAL_KEYS = ['xc%d' % i for i in range(300)] + ['xi%d' % i for i in range(300)]
@@ -276,6 +278,15 @@ def gen_cases(rng, tier):
                 key = rng.choice([k1, k1, 'n2'] + base)
                 items.append('%s,%s,%s' % (w, hx(key), hx('v%d' % j + rval(rng))))
             yield ' '.join(pre + ['B:%d:%s' % (k, '/'.join(items)), 'L', 'G:%s' % hx(k1)])
+    # 3b''. repetition / resources: many saves through the one long-lived saver thread with the descriptor
+    #       limit lowered to (open now + 24); the file is checked after every round, the number of open
+    #       descriptors at quiescence is compared in every case (key d)
+    for i in range(6 * scale):
+        keys = [rkey(rng) for _ in range(rng.randint(1, 2))]
+        ops = fill(rng, rng.randint(0, 3), keys)
+        ops += ['Q:%d:%s' % (rng.choice([40, 60, 100] if quick else [100, 300, 1100]), hx(rng.choice(keys + ['n'])))]
+        ops += [rng.choice(['L', 'V', 'G:%s' % hx(keys[0])])] + (fill(rng, 1, keys) + ['V', 'L'] if rng.random() < 0.5 else [])
+        yield ' '.join(ops)
     # 3c. a save during which the disk fills up: every write from the k-th on fails
     for i in range(80 * scale):
         keys = [rkey(rng) for _ in range(rng.randint(1, 3))]
